@@ -52,7 +52,7 @@ func init() {
 		Level: "model_checking",
 		Rule: "choice-tree exploration: every import-bearing template x <=k (quick 2, thorough 3 on small templates) insertions of {/*c*/, // c, newline, blank line, multi-line comment} into any gap (including both sides of the dot of qualified identifiers), gofmt-canonicalised and deduplicated, " +
 			"x decorator resolver {goast+guess, goast+map, gotypes over go/types Uses} x restorer resolver {guess, simple map, guess.WithMap, gobuild with hints, gobuild with a FindPackage hook} (only combinations that name every package correctly); " +
-			"plus every ordered pair of templates decorated by two decorators (own file sets) that share one goast resolver; oracle: bytes identical to the input whenever the plain (no import management) round trip of that input is, and re-decorating the output yields the same (name, path) sequence; " +
+			"plus every ordered pair of templates decorated by two decorators (own file sets) that share one goast resolver; oracle: bytes identical to the input (also when the same tree is printed a second time, by a Restorer whose FileSet already holds a file) whenever the plain (no import management) round trip of that input is, and re-decorating the output yields the same (name, path) sequence; " +
 			"state = (canonical text, resolver pair); non-trivial = file in which at least one identifier carries a path",
 		Assumptions: []string{"dependency packages are the synthetic typed world (fmt, io, os, bytes, a.b/x, c.d/x, e.f/y-go)"},
 		Units: func(tier string) []string {
@@ -319,6 +319,20 @@ func c08Check(cs c08Case) (core.Outcome, bool) {
 	out := buf.String()
 	if out != cs.Src {
 		return fail("bytes-differ:"+c01Class(cs.Src, out), "import-managed round trip is not byte-exact (%d identifiers carried a path)\n%s", withPath, diffDesc(cs.Src, out))
+	}
+	// still nothing changed: the same tree printed once more, by a Restorer whose FileSet already holds
+	// a file, reproduces the bytes again
+	var buf2 bytes.Buffer
+	if p := guard(func() {
+		err = lateRestorer(decorator.NewRestorerWithImports(localPath, restorerResolver(cs.Res))).Fprint(&buf2, df)
+	}); p != "" {
+		return fail("second-restore-panic:"+short(p, 60), "restoring the same tree a second time panicked: %s", p)
+	}
+	if err != nil {
+		return fail("second-restore-error", "restoring the same tree a second time failed: %v", err)
+	}
+	if buf2.String() != cs.Src {
+		return fail("second-print-differs:"+c01Class(cs.Src, buf2.String()), "the same unedited tree, printed a second time through a Restorer whose FileSet already holds a file, is not byte-exact\n%s", diffDesc(cs.Src, buf2.String()))
 	}
 	df2, _, ok2, err := decorateWith(out, cs.Dec)
 	if !ok2 || err != nil {
